@@ -2,6 +2,7 @@
 //! re-deliver. Crash points come from the cfg(grin_verif) hook `util::verif::crash_point`.
 use grin_chain::{Chain, Options, Tip};
 use grin_core::core::hash::Hashed;
+use grin_core::core::pmmr::{ReadablePMMR, ReadonlyPMMR};
 use grin_core::core::{Block, Transaction};
 use grin_core::global::{self, ChainTypes};
 use grin_keychain::Keychain;
@@ -27,7 +28,7 @@ fn copy_dir(from: &str, to: &str) {
 
 fn block_info(b: &Block) -> Value {
 	json!({"hash": b.hash().to_hex(), "prev": b.header.prev_hash.to_hex(), "height": b.header.height,
-		"work": b.header.total_difficulty().to_num()})
+		"work": b.header.total_difficulty().to_num(), "prev_root": b.header.prev_root.to_hex()})
 }
 
 /// Build the base chain, the input blocks and the description of the scenario.
@@ -144,9 +145,48 @@ fn find<'a>(all: &'a [Block], hash: &str) -> &'a Block {
 	all.iter().find(|b| b.hash().to_hex() == hash).expect("block by hash")
 }
 
+/// Header-chain state: header_head of the database, the header MMR's own head / root / size, and what
+/// `get_header_by_height` answers for every height up to header_head (the header MMR follows header_head).
+fn header_state(chain: &Chain) -> Value {
+	let hh = chain.header_head().unwrap();
+	let (mmr_head, root, size) = {
+		let pm = chain.header_pmmr();
+		let h = pm.read();
+		let root = std::panic::catch_unwind(std::panic::AssertUnwindSafe(|| ReadonlyPMMR::at(&h.backend, h.size).root()));
+		(
+			h.head_hash().map(|x| x.to_hex()).unwrap_or_else(|e| format!("err:{:?}", e)),
+			match root { Ok(Ok(r)) => r.to_hex(), Ok(Err(e)) => format!("err:{}", e), Err(_) => "panic".to_string() },
+			h.size,
+		)
+	};
+	let by_height: Vec<String> = (0..=hh.height)
+		.map(|h| {
+			match std::panic::catch_unwind(std::panic::AssertUnwindSafe(|| chain.get_header_by_height(h))) {
+				Ok(Ok(x)) => x.hash().to_hex(),
+				Ok(Err(_)) => "err".to_string(),
+				Err(_) => "panic".to_string(),
+			}
+		})
+		.collect();
+	json!({"header_height": hh.height, "mmr_head": mmr_head, "root": root, "size": size, "by_height": by_height})
+}
+
 fn state(chain: &Chain) -> Value {
 	json!({"head": chain.head().unwrap().last_block_h.to_hex(), "head_height": chain.head().unwrap().height,
-		"header_head": chain.header_head().unwrap().last_block_h.to_hex(), "roots": roots_hex(chain)})
+		"header_head": chain.header_head().unwrap().last_block_h.to_hex(), "roots": roots_hex(chain),
+		"hdr": header_state(chain)})
+}
+
+/// Arm / disarm the LD_PRELOAD syscall-level fault injector (harness/crash/shim/crashshim.c), if loaded:
+/// creating the marker file arms it, removing the file disarms it.
+fn shim_arm(on: bool) {
+	if let Ok(m) = std::env::var("CRASHSHIM_MARKER") {
+		if on {
+			let _ = std::fs::File::create(&m);
+		} else {
+			let _ = std::fs::remove_file(&m);
+		}
+	}
 }
 
 /// The operation under test, with crash points armed.
@@ -154,6 +194,7 @@ fn run(args: &Args) -> i32 {
 	let (all, desc) = load(args.req("data"));
 	let chain = init_chain(args.req("dir")).expect("init");
 	grin_util::verif::arm(true);
+	shim_arm(true);
 	let mut results = vec![];
 	for op in desc["ops"].as_array().unwrap() {
 		match op["op"].as_str().unwrap() {
@@ -177,6 +218,7 @@ fn run(args: &Args) -> i32 {
 		}
 	}
 	grin_util::verif::arm(false);
+	shim_arm(false);
 	let mut s = state(&chain);
 	s["results"] = json!(results);
 	s["validate"] = json!(format!("{:?}", chain.validate(false)));
